@@ -361,7 +361,7 @@ class SymInt:
         if isinstance(o, SymInt):
             if is_bv():
                 return SymInt(self.e & o.e)
-            raise Unsupported("symbolic & symbolic (int mode)")
+            return _bitop_via_bv(self, o, lambda a, b: a & b)
         return NotImplemented
 
     __rand__ = __and__
@@ -376,7 +376,7 @@ class SymInt:
         if isinstance(o, SymInt):
             if is_bv():
                 return SymInt(self.e | o.e)
-            raise Unsupported("symbolic | symbolic (int mode)")
+            return _bitop_via_bv(self, o, lambda a, b: a | b)
         return NotImplemented
 
     __ror__ = __or__
@@ -390,7 +390,9 @@ class SymInt:
             return SymInt(z3.simplify(self.e + K(o) - 2 * _and_const(self.e, o)))
         if isinstance(o, SymInt) and is_bv():
             return SymInt(self.e ^ o.e)
-        raise Unsupported("symbolic ^ symbolic (int mode)")
+        if isinstance(o, SymInt):
+            return _bitop_via_bv(self, o, lambda a, b: a ^ b)
+        raise Unsupported("^ with a non-integer")
 
     __rxor__ = __xor__
 
@@ -480,6 +482,13 @@ class SymInt:
 
     def __repr__(self):
         return self.__format__("")
+
+
+def _bitop_via_bv(a: "SymInt", b: "SymInt", op):
+    """bitwise op of two symbolic non-negative ints (Int mode) through 64-bit vectors"""
+    if not bool(sbool(z3.And(a.e >= 0, b.e >= 0, a.e < 2**62, b.e < 2**62))):
+        raise Unsupported("bitwise op on symbolic ints that may be negative / huge")
+    return SymInt(z3.BV2Int(op(z3.Int2BV(a.e, 64), z3.Int2BV(b.e, 64)), False))
 
 
 def _digit_char(d, upper=True):
